@@ -170,6 +170,10 @@ def run_job(job, io):
     tree_before = clone(scn.tree)
     spec_obs = (hash(scn.spec), repr(scn.spec), hash(scn.prefix_spec), repr(scn.prefix_spec))
     tracked = scn.tracked()
+    from collections import OrderedDict
+    from optsim.scenario import walk
+    od_keys = {id(k) for root in (scn.tree, scn.tree2, scn.prefix, scn.other) for x in walk(root)
+               if isinstance(x, OrderedDict) for k in dict.keys(x)}
     del base2, events2
     K = n_events
     ks = list(range(1, K + 1))
@@ -210,6 +214,12 @@ def run_job(job, io):
         got = outcome(fn, scn)
         U.HOOK = None
         verdict = 'ok' if got[0] == 'ok' else ('same' if got[1] is inj else 'other')
+        if (verdict == 'other' and type(got[1]) is KeyError and len(got[1].args) == 1 and id(got[1].args[0]) in od_keys
+                and label in ('key.__hash__', 'ukey.__hash__', 'key.__eq__', 'ukey.__eq__')):
+            # CPython's own OrderedDict iteration (odictiter_iternext -> PyODict_GetItem) replaces an exception raised by
+            # a key's __hash__/__eq__ with KeyError(key) before optree sees anything; not optree's to preserve.
+            verdict = 'same'
+            probes['cpython-odict-keyerror'] = probes.get('cpython-odict-keyerror', 0) + 1
         got_desc = describe_outcome(got) if verdict != 'same' else ''
         del got
         inj.__traceback__ = None
@@ -233,16 +243,22 @@ def run_job(job, io):
             refs_c = refcounts(tracked, buf_c)
             n_c = gc_count()
             rc_c = sys.getrefcount(inj)
-            if refs_c != refs_a or n_c != n_a or rc_c != rc_a:
-                diffs = [(type(o).__name__, a, b, c) for o, a, b, c in zip(tracked, refs_b, refs_a, refs_c) if not (a == b == c)]
-                leak = ('reference counts drift with every failed call: objects (type, before, after 1st, after 2nd) %r; '
+            # Drift must repeat in the same direction to count: the collector lazily *untracks* nested tuples and
+            # atomic dicts one level per full collection, so a shrinking object count is normal background.
+            grew = [(type(o).__name__, b, a, c) for o, b, a, c in zip(tracked, refs_b, refs_a, refs_c) if a > b and c > a]
+            shrank = [(type(o).__name__, b, a, c) for o, b, a, c in zip(tracked, refs_b, refs_a, refs_c) if a < b and c < a]
+            if grew or (n_a > n_b and n_c > n_a) or (rc_a > rc_b and rc_c > rc_a):
+                leak = ('leak', 'reference counts grow with every failed call: objects (type, before, after 1st, after 2nd) %r; '
                         'live gc objects %d -> %d -> %d; injected exception refcount %d -> %d -> %d'
-                        % (diffs[:6], n_b, n_a, n_c, rc_b, rc_a, rc_c))
+                        % (grew[:6], n_b, n_a, n_c, rc_b, rc_a, rc_c))
+            elif shrank:
+                leak = ('over-release', 'reference counts shrink with every failed call: objects (type, before, after 1st, '
+                        'after 2nd) %r' % (shrank[:6],))
         steps += cnt[0]
         faults_fired[kind] += 1
         keys.add('%s|%s|%s|%d' % (opname, label, kind, bucket(site_ord[k - 1])))
         if leak:
-            viol('leak', site, leak)
+            viol(leak[0], site, leak[1])
         if cnt[0] < k:
             viol('unstable', site, 'faulted execution made only %d of the %d callback calls before fault %d' % (cnt[0], K, k))
         elif kind == 'raise-typeerror-lt':
